@@ -7,7 +7,8 @@ import Model.HvRecorder
 → `{"ok":true,"hv":…,"fast":…,"last":…,"code":…|null,"cells":n}` (only the wanted keys).
 `{"op":"recorder","jobs":[null|[rat..]..],"patience":n,"threshold":rat|null}` (one `ObjectiveRecorder`
 / `SearchEarlyStopping` pair driven through a stream of jobs, `null` = a failed job)
-→ `{"ok":true,"values":[null|rat..],"nlower":[n..],"stopped":[bool..]}` (`null` = `-inf`). -/
+→ `{"ok":true,"values":[null|rat..],"nlower":[n..],"stopped":[bool..],"ref":null|[rat..]}` (`null` = `-inf`;
+`ref` = the reference point after the whole stream, kept incrementally by `refRun`). -/
 
 open Lean DH.Wire DH.Hypervolume
 
@@ -55,8 +56,12 @@ def handle (j : Json) : Except String Json := do
     let opt := fun (v : Option Rat) => match v with
       | some v => ofRat v
       | none => Json.null
+    -- the reference point kept incrementally (`C12_recorder_incremental_ref`: it is the worst point of the history)
+    let ref := match refRun none jobs with
+      | some r => Json.arr (r.map ofRat).toArray
+      | none => Json.null
     return Json.mkObj [("ok", true), ("values", Json.arr (values.map opt).toArray),
-      ("nlower", ofNats (states.map (·.nLower))), ("stopped", ofBools (states.map (·.stopped)))]
+      ("nlower", ofNats (states.map (·.nLower))), ("stopped", ofBools (states.map (·.stopped))), ("ref", ref)]
   | _ => throw s!"unknown op {op}"
 
 def main : IO Unit := serveFn handle
